@@ -7,7 +7,7 @@ from .. import scenario
 ID = "C20"
 LEVEL = "exploration"
 RULE = ("cases are directory trees (entries: regular file / directory with children / symlink to a file inside, "
-        "to a file outside DIR, or dangling) over the property's name set (incl. names that are not valid UTF-8), with DIR spelled relative, ./relative, "
+        "to a file outside DIR, or dangling) over the property's name set (incl. names that are not valid UTF-8), with DIR itself named plainly or like a source file / a bytecode file / hidden / with a space / non-ASCII and spelled relative, ./relative, "
         "trailing slash, absolute or omitted; enumerated part = every 1- and 2-entry DIR over (name x kind); random part "
         "= Hypothesis trees with up to 8 entries and sub-directories. Non-trivial = DIR holds at least one regular "
         "*.mmm file AND (a near-miss name or a directory/symlink named *.mmm or a sub-directory holding *.mmm); "
@@ -33,7 +33,8 @@ def has_ext_mmm(name):
 def build(case):
     """case = {"entries":[(name, kind, children)], "spell": s}; children = [(name, kind)] for dirs."""
     base = "p/q/r"
-    D = base + "/DIR"
+    dn = case.get("dirname", "DIR")
+    D = base + "/" + dn
     files = {base + "/canary.mmm": "canary-beside", "p/q/above.mmm": "canary-above",
              base + "/target_out.mmm": "outside-target", D + "/zz_target_in.txt": "inside-target"}
     dirs = [D]
@@ -64,11 +65,11 @@ def build(case):
     sp = case["spell"]
     cwd = base
     if sp == "rel":
-        argv = ["mscript", "clean", "DIR"]
+        argv = ["mscript", "clean", dn]
     elif sp == "dotrel":
-        argv = ["mscript", "clean", "./DIR"]
+        argv = ["mscript", "clean", "./" + dn]
     elif sp == "slash":
-        argv = ["mscript", "clean", "DIR/"]
+        argv = ["mscript", "clean", dn + "/"]
     elif sp == "abs":
         argv = ["mscript", "clean", "{ROOT}/" + D]
     else:
@@ -145,8 +146,12 @@ def a_fs(a, res, ctx, phase=None):
     return out or None
 
 
+# (a DIR whose own name is not valid UTF-8 is refused by the argument parser of every sub-command: outside this property)
+DIRNAMES = ["DIR", "x.ms", "Lib.MS", "proj.mmm", "d.ms.d", ".cfg", "a b", "ms", "caf\u00e9"]
+
+
 def canon(case):
-    return repr((sorted((n, k, tuple(sorted(c))) for n, k, c in case["entries"]), case["spell"]))
+    return repr((sorted((n, k, tuple(sorted(c))) for n, k, c in case["entries"]), case["spell"], case.get("dirname", "DIR")))
 
 
 def nontrivial(case):
@@ -172,7 +177,7 @@ def check(case):
     labels = ["spell=" + case["spell"]] + ["kind=" + k for k in set(k for _, k, _ in case["entries"])]
     labels.append("entries=%d" % len(case["entries"]))
     r = CaseResult(nt_keys=[canon(case)] if nontrivial(case) else [], labels=labels,
-                   sample={"entries": [(show(n), k, [(show(cn), ck) for cn, ck in ch]) for n, k, ch in case["entries"]], "spell": case["spell"], "must_remove": [show(m) for m in must]})
+                   sample={"dirname": show(case.get("dirname", "DIR")), "entries": [(show(n), k, [(show(cn), ck) for cn, ck in ch]) for n, k, ch in case["entries"]], "spell": case["spell"], "must_remove": [show(m) for m in must]})
     if fails:
         r.failure = fail("; ".join(fails), signature(case, fails, res), sc, case=case)
     return r
@@ -186,6 +191,11 @@ def enumerated(tier, seed):
             cases.append({"entries": [a, b], "spell": "rel"})
     if tier == "quick":
         cases = cases[:len(singles)] + cases[len(singles)::3]
+    # the NAME of DIR itself (named like a source file, like a bytecode file, hidden, with a space, non-ASCII) x every spelling
+    probe = [("x.mmm", "file", []), ("x.ms", "file", []), ("sub", "dir", [("x.mmm", "file")])]
+    for dn in DIRNAMES:
+        for sp in SPELL:
+            cases.append({"entries": probe, "spell": sp, "dirname": dn})
     return cases
 
 
@@ -200,7 +210,7 @@ def trees(draw):
             cn = draw(st.lists(st.sampled_from(NAMES), max_size=3, unique=True))
             ch = [(c, draw(st.sampled_from(["file", "file", "dir", "ln"]))) for c in cn]
         entries.append((n, k, ch))
-    return {"entries": entries, "spell": draw(st.sampled_from(SPELL))}
+    return {"entries": entries, "spell": draw(st.sampled_from(SPELL)), "dirname": draw(st.sampled_from(["DIR", "DIR", "DIR"] + DIRNAMES))}
 
 
 def strategy(tier):
